@@ -1243,6 +1243,56 @@ def _convolve1d(input, weights, axis=-1, output=None, mode='reflect', cval=0.0, 
     return _sp.ndimage.convolve1d(conc(_np.asarray(input)), conc(_np.asarray(weights)), axis=axis, output=output, mode=mode, cval=cval, origin=origin)
 
 
+class _Interp1dStub:
+    """scipy.interpolate.interp1d: linear in the data `y` - on symbolic y the real interpolant of the unit vectors is used."""
+
+    def __init__(self, x, y, kind='linear', **kw):
+        self.x, self.y, self.kind, self.kw = x, y, kind, kw
+        self.sym = has_sym(y)
+        if not self.sym:
+            self.real = _sp.interpolate.interp1d(conc(_np.asarray(x)), conc(_np.asarray(y)), kind=kind, **kw)
+
+    def __call__(self, xnew):
+        if not self.sym:
+            return self.real(conc(_np.asarray(xnew)))
+        _used('interpolate.interp1d (linear-kernel stub)')
+        y = _np.asarray(self.y, dtype=object)
+        n = y.shape[-1]
+        xs = conc(_np.asarray(self.x))
+        cols = []
+        for i in range(n):
+            e = _np.zeros(n)
+            e[i] = 1.0
+            cols.append(_np.asarray(_sp.interpolate.interp1d(xs, e, kind=self.kind, **self.kw)(conc(_np.asarray(xnew))), dtype=float))
+        M = _np.stack(cols, axis=-1)
+        return M.astype(object) @ y
+
+
+class _RBSStub:
+    """scipy.interpolate.RectBivariateSpline: linear in the data z."""
+
+    def __init__(self, x, y, z, *a, **kw):
+        self.x, self.y, self.z, self.a, self.kw = conc(_np.asarray(x)), conc(_np.asarray(y)), z, a, kw
+        self.sym = has_sym(z)
+        if not self.sym:
+            self.real = _sp.interpolate.RectBivariateSpline(self.x, self.y, conc(_np.asarray(z)), *a, **kw)
+
+    def __call__(self, xn, yn, *a, **kw):
+        if not self.sym:
+            return self.real(xn, yn, *a, **kw)
+        _used('interpolate.RectBivariateSpline (linear-kernel stub)')
+        z = _np.asarray(self.z, dtype=object)
+        out = None
+        for i in range(z.shape[0]):
+            for j in range(z.shape[1]):
+                E = _np.zeros(z.shape)
+                E[i, j] = 1.0
+                B = _np.asarray(_sp.interpolate.RectBivariateSpline(self.x, self.y, E, *self.a, **self.kw)(xn, yn, *a, **kw), dtype=float)
+                term = B.astype(object) * z[i, j]
+                out = term if out is None else out + term
+        return out
+
+
 def validate_stubs(seed=0):
     """Concrete validation of the contract stubs against the real kernels (run at the start of checks)."""
     rng = _np.random.RandomState(seed)
@@ -1354,9 +1404,10 @@ def build():
         'idst': _mk_dst(_sp.fftpack.idst, 'fftpack.idst'),
     }, 'scipy.fftpack')
     signal = Facade(_sp.signal, {'fftconvolve': _fftconvolve}, 'scipy.signal')
+    interpolate = Facade(_sp.interpolate, {'interp1d': _Interp1dStub, 'RectBivariateSpline': _RBSStub}, 'scipy.interpolate')
     spf = Facade(_sp, {
         'linalg': sp_linalg, 'sparse': sparse, 'stats': stats, 'special': special,
-        'fftpack': fftpack, 'signal': signal,
+        'fftpack': fftpack, 'signal': signal, 'interpolate': interpolate,
     }, 'scipy')
 
     modmap = {
@@ -1378,6 +1429,7 @@ def build():
         id(_sp.fftpack.idst): fftpack.idst,
         id(_sp.signal.fftconvolve): _fftconvolve,
         id(_sp.ndimage.convolve1d): _convolve1d,
+        id(_sp.interpolate.interp1d): _Interp1dStub,
     }
     class _NeverEqual:
         def __eq__(self, o):
